@@ -2,9 +2,11 @@ import Lemmas.Online.Concrete
 /-!
 # C04 — a failing migration never leaves the version table out of step
 
-All theorems are about `Model.Online.runFinal ap c pre (oracle plan k pos) db`: what a fresh
+All theorems are about `Model.Online.runFinal ap c pre (oracle kd plan k pos) db`: what a fresh
 connection sees after the `env.py` shape was run on database `db`, where migrations
-`0 … k-1` of `plan` ran completely and migration `k` raised at atom position `pos`
+`0 … k-1` of `plan` ran completely and migration `k` raised an exception of kind `kd`
+(`Exception`, `KeyboardInterrupt`, `SystemExit`, other `BaseException`: every theorem is
+universally quantified over it) at atom position `pos`
 (before/between/after each statement, around autocommit blocks, inside or after the version
 update).  They hold for **every** state type `σ`, statement payload `α` and statement
 semantics `ap`, every plan length, every `k`, every `pos`.
@@ -16,7 +18,7 @@ semantics `ap`, every plan length, every `k`, every `pos`.
 namespace C04
 open Model.Online Spec.Online
 
-variable {α σ ρ : Type} (ap : α → σ → σ)
+variable {α σ ρ : Type} (ap : α → σ → σ) (kd : FailKind)
 
 /-! ### plumbing: from the `env.py` shape to the loop -/
 
@@ -68,19 +70,19 @@ theorem loopStart_committed_transactional (c : Cfg) (hm : c.mode = .transactiona
 /-- after a failure, the observation is the `committed` component the loop ended with -/
 theorem final_eq (c : Cfg) (pre : List (Stmt α)) (plan : List (Mig α)) (k pos : Nat) (m : Mig α) (db : σ)
     (hk : plan[k]? = some m) :
-    runFinal ap c pre (oracle plan k pos) db =
-      (runLoop ap c ((plan.take k).map migAtoms ++ [(migAtoms m).take pos ++ [.raise]]) (loopStart ap c pre db)).st.committed := by
-  rw [runFinal_of_raised, runMigrations_eq', oracle_eq plan k pos m hk]
-  rw [runMigrations_eq', oracle_eq plan k pos m hk]
-  exact runLoop_raises ap c _ _ _
+    runFinal ap c pre (oracle kd plan k pos) db =
+      (runLoop ap c ((plan.take k).map migAtoms ++ [(migAtoms m).take pos ++ [.raise kd]]) (loopStart ap c pre db)).st.committed := by
+  rw [runFinal_of_raised, runMigrations_eq', oracle_eq kd plan k pos m hk]
+  rw [runMigrations_eq', oracle_eq kd plan k pos m hk]
+  exact runLoop_raises ap kd c _ _ _
 
 /-- the run raises: the exception reaches the caller (it is never swallowed) -/
 theorem failure_propagates (c : Cfg) (pre : List (Stmt α)) (plan : List (Mig α)) (k pos : Nat) (m : Mig α) (db : σ)
-    (hk : plan[k]? = some m) : runRaised ap c pre (oracle plan k pos) db = true := by
+    (hk : plan[k]? = some m) : runRaised ap c pre (oracle kd plan k pos) db = true := by
   unfold runRaised
-  have := runLoop_raises ap c ((plan.take k).map migAtoms) ((migAtoms m).take pos) (loopStart ap c pre db)
-  rw [runMigrations_eq', oracle_eq plan k pos m hk]
-  cases h : runLoop ap c ((plan.take k).map migAtoms ++ [(migAtoms m).take pos ++ [.raise]]) (loopStart ap c pre db) with
+  have := runLoop_raises ap kd c ((plan.take k).map migAtoms) ((migAtoms m).take pos) (loopStart ap c pre db)
+  rw [runMigrations_eq', oracle_eq kd plan k pos m hk]
+  cases h : runLoop ap c ((plan.take k).map migAtoms ++ [(migAtoms m).take pos ++ [.raise kd]]) (loopStart ap c pre db) with
   | ok s => rw [h] at this; simp [Outcome.isRaised] at this
   | raised s => rfl
 
@@ -104,8 +106,8 @@ theorem take_eq_nil_iff_zero (plan : List (Mig α)) (k : Nat) (m : Mig α) (hk :
 theorem single_txn (c : Cfg) (pre : List (Stmt α)) (plan : List (Mig α)) (k pos : Nat) (m : Mig α) (db : σ)
     (hmode : c.mode = .transactional) (hreg : SingleRegime c) (hk : plan[k]? = some m)
     (hna : ∀ m' ∈ plan.take k, noAuto (migAtoms m') = true) (hnaf : noAuto ((migAtoms m).take pos) = true) :
-    runFinal ap c pre (oracle plan k pos) db = db := by
-  rw [final_eq ap c pre plan k pos m db hk, runLoop_single_exact ap c hmode hreg _ _ _ (loopStart_auto ap c pre db),
+    runFinal ap c pre (oracle kd plan k pos) db = db := by
+  rw [final_eq ap kd c pre plan k pos m db hk, runLoop_single_exact ap c hmode hreg _ _ _ (loopStart_auto ap c pre db),
     loopStart_committed_transactional ap c hmode]
   intro p hp
   rcases List.mem_append.mp hp with h | h
@@ -123,9 +125,9 @@ theorem single_txn (c : Cfg) (pre : List (Stmt α)) (plan : List (Mig α)) (k po
 theorem per_migration (c : Cfg) (pre : List (Stmt α)) (plan : List (Mig α)) (k pos : Nat) (m : Mig α) (db : σ)
     (hmode : c.mode = .transactional) (hreg : PerMigRegime c) (hk : plan[k]? = some m)
     (hnaf : noAuto ((migAtoms m).take pos) = true) :
-    runFinal ap c pre (oracle plan k pos) db = if k = 0 then db else stateAt ap pre plan k db := by
-  rw [final_eq ap c pre plan k pos m db hk,
-    runLoop_perMig_exact ap c hmode hreg m pos hnaf _ _ (loopStart_auto ap c pre db) (loopStart_txn ap c hreg pre db),
+    runFinal ap c pre (oracle kd plan k pos) db = if k = 0 then db else stateAt ap pre plan k db := by
+  rw [final_eq ap kd c pre plan k pos m db hk,
+    runLoop_perMig_exact ap kd c hmode hreg m pos hnaf _ _ (loopStart_auto ap c pre db) (loopStart_txn ap c hreg pre db),
     loopStart_committed_transactional ap c hmode, loopStart_working]
   simp only [take_eq_nil_iff_zero plan k m hk, stateAt, applied]
 
@@ -136,9 +138,9 @@ theorem recorded_exactly_completed (π : σ → ρ) (c : Cfg) (pre : List (Stmt 
     (m : Mig α) (db : σ) (hreg : PerMigRegime c) (hk : plan[k]? = some m)
     (hpre : ∀ s ∈ pre, ∀ x, π (ap s.act x) = π x)
     (hbody : ∀ s, Atom.stmt s ∈ bodyAtoms m.segs → ∀ x, π (ap s.act x) = π x) :
-    π (runFinal ap c pre (oracle plan k pos) db) = π (stateAt ap pre plan k db) := by
-  rw [final_eq ap c pre plan k pos m db hk,
-    runLoop_perMig_proj ap π c hreg m pos hbody _ _ (loopStart_auto ap c pre db) (loopStart_txn ap c hreg pre db),
+    π (runFinal ap c pre (oracle kd plan k pos) db) = π (stateAt ap pre plan k db) := by
+  rw [final_eq ap kd c pre plan k pos m db hk,
+    runLoop_perMig_proj ap kd π c hreg m pos hbody _ _ (loopStart_auto ap c pre db) (loopStart_txn ap c hreg pre db),
     loopStart_working]
   · rfl
   · rw [loopStart_working, applyAll_preserve ap π]
@@ -155,8 +157,8 @@ theorem nontransactional (π : σ → ρ) (c : Cfg) (pre : List (Stmt α)) (plan
     (m : Mig α) (db : σ) (htddl : c.tddl = false) (hext : c.external = false) (hk : plan[k]? = some m)
     (hpre : ∀ s ∈ pre, ∀ x, π (ap s.act x) = π x)
     (hbody : ∀ s, Atom.stmt s ∈ bodyAtoms m.segs → ∀ x, π (ap s.act x) = π x) :
-    π (runFinal ap c pre (oracle plan k pos) db) = π (stateAt ap pre plan k db) :=
-  recorded_exactly_completed ap π c pre plan k pos m db ⟨hext, Or.inl htddl⟩ hk hpre hbody
+    π (runFinal ap c pre (oracle kd plan k pos) db) = π (stateAt ap pre plan k db) :=
+  recorded_exactly_completed ap kd π c pre plan k pos m db ⟨hext, Or.inl htddl⟩ hk hpre hbody
 
 /-- **Every configuration** (all backend modes, all four settings, external transaction,
     autocommit blocks, flag/backend mismatches): the version rows after the failure are
@@ -167,14 +169,14 @@ theorem rows_at_boundary (π : σ → ρ) (c : Cfg) (pre : List (Stmt α)) (plan
     (hcong : ∀ a x y, π x = π y → π (ap a x) = π (ap a y))
     (hpre : ∀ s ∈ pre, ∀ x, π (ap s.act x) = π x)
     (hbody : ∀ m' ∈ plan.take k ++ [m], ∀ s, Atom.stmt s ∈ bodyAtoms m'.segs → ∀ x, π (ap s.act x) = π x) :
-    ∃ j, j ≤ k ∧ π (runFinal ap c pre (oracle plan k pos) db) = π (stateAt ap pre plan j db) := by
-  rw [final_eq ap c pre plan k pos m db hk]
+    ∃ j, j ≤ k ∧ π (runFinal ap c pre (oracle kd plan k pos) db) = π (stateAt ap pre plan j db) := by
+  rw [final_eq ap kd c pre plan k pos m db hk]
   have hbase : π (applyAll ap (pre.map (·.act)) db) = π db := by
     rw [applyAll_preserve ap π]
     intro a ha x
     obtain ⟨s, hs, e⟩ := List.mem_map.mp ha
     rw [← e]; exact hpre s hs x
-  have := runLoop_boundary ap π c hcong m pos (plan.take k) hbody (fun y => y = π (applyAll ap (pre.map (·.act)) db))
+  have := runLoop_boundary ap kd π c hcong m pos (plan.take k) hbody (fun y => y = π (applyAll ap (pre.map (·.act)) db))
     (applyAll ap (pre.map (·.act)) db) (loopStart ap c pre db) (loopStart_auto ap c pre db)
     (by
       rw [hbase]
@@ -201,8 +203,8 @@ theorem never_names_failed (π : σ → ρ) (names : ρ → Nat → Prop) (e : P
     (hpre : ∀ s ∈ pre, ∀ x, π (ap s.act x) = π x)
     (hbody : ∀ m' ∈ plan.take k ++ [m], ∀ s, Atom.stmt s ∈ bodyAtoms m'.segs → ∀ x, π (ap s.act x) = π x)
     (hb : ∀ j, j ≤ k → (names (π (stateAt ap pre plan j db)) m.rev ↔ e)) :
-    names (π (runFinal ap c pre (oracle plan k pos) db)) m.rev ↔ e := by
-  obtain ⟨j, hj, h⟩ := rows_at_boundary ap π c pre plan k pos m db hk hcong hpre hbody
+    names (π (runFinal ap c pre (oracle kd plan k pos) db)) m.rev ↔ e := by
+  obtain ⟨j, hj, h⟩ := rows_at_boundary ap kd π c pre plan k pos m db hk hcong hpre hbody
   rw [h]; exact hb j hj
 
 /-! ### the Bool checker that judges the implementation is implied by the theorems -/
@@ -220,7 +222,7 @@ theorem imp_or2 {a b c : Bool} (h : a = true → (b || c) = true) : (!a || b || 
 theorem model_satisfies_check (c : Cfg) (upgrade : Bool) (parents : List (Nat × List Nat)) (pre : List (Stmt Act))
     (plan : List (Mig Act)) (k pos : Nat) (m : Mig Act) (db : Db) (hk : plan[k]? = some m)
     (hwf : wfPlan pre plan = true) (hn : namesHyp parents pre plan db m.rev upgrade k = true) :
-    (check c upgrade parents pre plan k pos db (runFinal applyAct c pre (oracle plan k pos) db)).holds = true := by
+    (check c upgrade parents pre plan k pos db (runFinal applyAct c pre (oracle kd plan k pos) db)).holds = true := by
   simp only [wfPlan, Bool.and_eq_true, List.all_eq_true] at hwf
   obtain ⟨hwpre, hwplan⟩ := hwf
   have hpre : ∀ s ∈ pre, ∀ x, (applyAct s.act x).rows = x.rows :=
@@ -235,9 +237,9 @@ theorem model_satisfies_check (c : Cfg) (upgrade : Bool) (parents : List (Nat ×
     · simp only [List.mem_singleton] at h; subst h; exact hbodyOf m' hm
   simp only [check, hk, Verdict.holds, Bool.and_eq_true]
   refine ⟨⟨⟨⟨?_, ?_⟩, ?_⟩, ?_⟩, ?_⟩
-  · obtain ⟨j, hj, h⟩ := rows_at_boundary applyAct Db.rows c pre plan k pos m db hk applyAct_rows_cong hpre hbody
+  · obtain ⟨j, hj, h⟩ := rows_at_boundary applyAct kd Db.rows c pre plan k pos m db hk applyAct_rows_cong hpre hbody
     exact boundaryRows_of pre plan db _ k j hj h.symm
-  · obtain ⟨j, hj, h⟩ := rows_at_boundary applyAct Db.rows c pre plan k pos m db hk applyAct_rows_cong hpre hbody
+  · obtain ⟨j, hj, h⟩ := rows_at_boundary applyAct kd Db.rows c pre plan k pos m db hk applyAct_rows_cong hpre hbody
     rw [h, namesHyp_at parents pre plan db m.rev upgrade k j hj hn]
     simp
   · apply imp_or; intro hc
@@ -246,7 +248,7 @@ theorem model_satisfies_check (c : Cfg) (upgrade : Bool) (parents : List (Nat ×
     have hreg : SingleRegime c := by
       unfold SingleRegime
       cases hx : c.external <;> cases ht : c.tddl <;> cases hp : c.perMig <;> simp_all
-    rw [single_txn applyAct c pre plan k pos m db (by simpa using h1) hreg hk
+    rw [single_txn applyAct kd c pre plan k pos m db (by simpa using h1) hreg hk
       (fun m' hm' => by
         simp only [List.all_eq_true, List.mem_map] at h5
         exact h5 _ ⟨m', hm', rfl⟩) h6]
@@ -257,13 +259,13 @@ theorem model_satisfies_check (c : Cfg) (upgrade : Bool) (parents : List (Nat ×
     have hreg : PerMigRegime c := by
       unfold PerMigRegime
       cases hx : c.external <;> cases ht : c.tddl <;> cases hp : c.perMig <;> simp_all
-    rw [per_migration applyAct c pre plan k pos m db (by simpa using h1) hreg hk h5]
+    rw [per_migration applyAct kd c pre plan k pos m db (by simpa using h1) hreg hk h5]
     by_cases hk0 : k = 0
     · subst hk0; simp [applied, planActs, applyAll]
     · simp [hk0]
   · apply imp_or; intro hc
     simp only [Bool.and_eq_true] at hc
-    rw [nontransactional applyAct Db.rows c pre plan k pos m db (by simpa using hc.1) (by simpa using hc.2) hk hpre (hbodyOf m hm)]
+    rw [nontransactional applyAct kd Db.rows c pre plan k pos m db (by simpa using hc.1) (by simpa using hc.2) hk hpre (hbodyOf m hm)]
     simp
 
 /-- **Earlier migrations are recorded exactly when their effects are durable** — the
@@ -276,8 +278,8 @@ theorem earlier_effects_durable (c : Cfg) (pre : List (Stmt Act)) (plan : List (
     (m : Mig Act) (db : Db) (n : Nat) (hreg : PerMigRegime c) (hk : plan[k]? = some m)
     (hpre : ∀ s ∈ pre, touches s.act n = false)
     (hbody : ∀ a ∈ bodyActs m.segs, touches a n = false) :
-    n ∈ (runFinal applyAct c pre (oracle plan k pos) db).objs ↔ n ∈ (stateAt applyAct pre plan k db).objs := by
-  have := recorded_exactly_completed applyAct (fun x : Db => decide (n ∈ x.objs)) c pre plan k pos m db hreg hk
+    n ∈ (runFinal applyAct c pre (oracle kd plan k pos) db).objs ↔ n ∈ (stateAt applyAct pre plan k db).objs := by
+  have := recorded_exactly_completed applyAct kd (fun x : Db => decide (n ∈ x.objs)) c pre plan k pos m db hreg hk
     (fun s hs x => applyAct_objs_untouched _ n (hpre s hs) x)
     (fun s hs x => applyAct_objs_untouched _ n (hbody _ (stmt_mem_bodyAtoms hs)) x)
   simpa using this
@@ -297,12 +299,12 @@ def cfg (md : Mode) (tddl perMig : Bool) : Cfg := { mode := md, tddl := tddl, pe
 
 -- migration `b` fails after its first statement
 -- transactional DDL, one transaction: everything as before (theorem `single_txn` applies: no autocommit block)
-example : runFinal applyAct (cfg .transactional true false) exPre (oracle exPlan 1 1) exDb = exDb := by decide
+example : runFinal applyAct (cfg .transactional true false) exPre (oracle .keyboardInterrupt exPlan 1 1) exDb = exDb := by decide
 -- transactional DDL, per migration: `a` applied and recorded, nothing of `b`
-example : runFinal applyAct (cfg .transactional true true) exPre (oracle exPlan 1 1) exDb =
+example : runFinal applyAct (cfg .transactional true true) exPre (oracle .systemExit exPlan 1 1) exDb =
     { objs := [0, 1, 2], rows := [0], vt := true } := by decide
 -- sqlite3 legacy mode, `transactional_ddl` false: `a` recorded, `b`'s first table is durable
-example : runFinal applyAct (cfg .pysqlite false false) exPre (oracle exPlan 1 1) exDb =
+example : runFinal applyAct (cfg .pysqlite false false) exPre (oracle .baseException exPlan 1 1) exDb =
     { objs := [0, 1, 2, 4], rows := [0], vt := true } := by decide
 -- the hypotheses of `model_satisfies_check` hold for this plan
 example : wfPlan exPre exPlan = true ∧ namesHyp exParents exPre exPlan exDb 1 true 1 = true := by decide
@@ -324,8 +326,9 @@ example : (check (cfg .transactional true true) true exParents exPre exPlan 1 1 
     does not hold. -/
 theorem single_txn_autocommit_block_commits :
     runFinal applyAct (cfg .transactional true false) exPre
-      (oracle [exPlan[0], { rev := 1, segs := [.plain [⟨.ddl, .add 4⟩], .auto [⟨.ddl, .add 6⟩], .plain [⟨.dml, .add 3⟩]],
-                            vstmts := [.vupd 0 1] }] 1 4) exDb
+      (oracle .exception
+        [exPlan[0], { rev := 1, segs := [.plain [⟨.ddl, .add 4⟩], .auto [⟨.ddl, .add 6⟩], .plain [⟨.dml, .add 3⟩]],
+                      vstmts := [.vupd 0 1] }] 1 4) exDb
       = { objs := [0, 1, 2, 4, 6], rows := [0], vt := true } := by decide
 
 end Examples
